@@ -1393,3 +1393,7 @@ case("c13-workflow-event-before-txn", "C13", "mutant", [(H + "complete_workflow.
                 self.event_recorder.record_workflow_completed(execution, source_handler="CompleteWorkflowHandler")
             # Collect running stages to cancel if not successful
             running_stages = []""")], "C13.R6")
+case("c13-scope-match-raw-strings", "C13", "mutant", [("src/stabilize/events/recorder/base.py", "        return bool(same_database(store_url) == same_database(scope.url))", "        return bool(store_url == scope.url)")], "C13.R1")
+case("c13-refactor-scope-match-inline", "C13", "refactor", [("src/stabilize/events/recorder/base.py", """        same_database = get_connection_manager()._parse_sqlite_path
+        return bool(same_database(store_url) == same_database(scope.url))""", """        mgr = get_connection_manager()
+        return mgr._parse_sqlite_path(scope.url) == mgr._parse_sqlite_path(store_url)""")])
